@@ -466,6 +466,25 @@ class Infer:
                     return frozenset(out)
                 # .items() of a dict with known value type -> idx 1
                 it = src[1]
+                if (isinstance(it, ast.Call) and isinstance(it.func, ast.Attribute) and it.func.attr == "items"
+                        and not it.args and isinstance(it.func.value, ast.Name) and idx in (0, 1)):
+                    # a literal dispatch table {keyword: function}: local (assigned once) or module-level constant
+                    dn = it.func.value.id
+                    disp, dscope = None, f
+                    if isinstance(f, Func) and dn in f.locals():
+                        assigned = [b_[1] for b_ in self.bindings(f).get(dn, []) if b_[0] in ("assign", "aug")]
+                        others = [b_ for b_ in self.bindings(f).get(dn, []) if b_[0] not in ("assign", "annot")]
+                        if len(assigned) == 1 and not others:
+                            disp = assigned[0]
+                    else:
+                        r_ = self.prog.resolve_global(self._mod(f), dn)
+                        if r_ and r_[0] == "const":
+                            disp, dscope = r_[2], r_[1]
+                    if isinstance(disp, ast.Dict) and disp.keys and all(k_ is not None for k_ in disp.keys):
+                        out = set()
+                        for e_ in (disp.keys if idx == 0 else disp.values):
+                            out |= self.type_of(e_, dscope)
+                        return frozenset(out)
                 if (isinstance(it, ast.Call) and isinstance(it.func, ast.Attribute)
                         and it.func.attr == "items" and idx == 1):
                     return self.elem_type_of(it.func.value, f)
@@ -840,10 +859,16 @@ class Infer:
             return None
         if isinstance(e, ast.Subscript):
             return self.signature_funcs(e.value, scope, _depth + 1)
+        if isinstance(e, (ast.ListComp, ast.GeneratorExp)) and len(e.generators) == 1 and isinstance(e.elt, ast.Name) \
+                and isinstance(e.generators[0].target, ast.Name) and e.generators[0].target.id == e.elt.id:
+            # a filtered selection of the parameters: [param for param in <parameters> if ...]
+            return self.signature_funcs(e.generators[0].iter, scope, _depth + 1)
         if isinstance(e, ast.Call):
             d = dotted(e.func)
-            if d in ("list", "tuple", "iter") and e.args:
+            if d in ("list", "tuple", "iter", "sorted", "reversed") and e.args:
                 return self.signature_funcs(e.args[0], scope, _depth + 1)
+            if d == "filter" and len(e.args) == 2:
+                return self.signature_funcs(e.args[1], scope, _depth + 1)
             if isinstance(e.func, ast.Attribute) and e.func.attr == "values":
                 return self.signature_funcs(e.func.value, scope, _depth + 1)
             # a repo helper that returns the signature parameters
